@@ -4810,9 +4810,8 @@ class Symbol:
         # Ignore previous symbol's defaults.
         # They'll be added during finalize_node() for completeness, but won't take any effect;
         # First one will be used as it has no condition.
-        dependency = self.kconfig.y
-        for node in self.nodes:
-            dependency = self.kconfig._make_and(dependency, node.dep)
+        # A symbol defined in several places takes its defaults when the dependencies of any one definition hold
+        dependency = self.direct_dep
         if self._kconfig_defaults is None:
             self._kconfig_defaults = self.defaults
         self.defaults = [(sym_for_val, dependency)]
